@@ -20,8 +20,9 @@ Conventions
 * the small-float helpers (`float2packed11`, `packed11ToFloat`, `floatTo11bit`, …) are pure bit
   manipulation: a `float` is carried as its bit pattern `UInt32`; `x == 0.0f`, `isnan`, `isinf`,
   `x < 2^-15`, `x >= 65536.0f` are the corresponding bit tests;
-* `static_cast<integer>(NaN)` is undefined behaviour in C++ (property C20); on x86-64 `cvttss2si`
-  yields `0x80000000…`, whose low 8/16/32 bits are 0 — the model says 0 and NOTES.md says so.
+* `static_cast<integer>(f)` for NaN or out-of-range `f` is undefined behaviour in C++ (property C20);
+  the model follows what g++ emits on x86-64 (`cvttss2si`: "integer indefinite" `0x80000000…`, whose
+  low 8/16/32 bits are 0, so NaN packs to code 0) — a platform fact, see NOTES.md.
 -/
 namespace Glm.Hand.C06
 
@@ -39,8 +40,14 @@ class FOps (F : Type) where
   lt : F → F → Bool
   /-- `std::round`: to nearest integer, ties away from zero -/
   round : F → F
-  /-- `static_cast<int>(f)`: truncation; NaN ↦ 0 and saturation outside `int` (UB in C++) -/
+  /-- `static_cast<float>(u)` for `unsigned int` (round to nearest even above 2^24) -/
+  ofU32 : UInt32 → F
+  /-- `static_cast<int>(f)` as g++ emits it on x86-64 (`cvttss2si r32`): truncation; NaN and values
+  outside `int` (undefined behaviour in C++) give the "integer indefinite" `0x80000000` -/
   toInt : F → Int32
+  /-- `cvttss2si r64` (g++ uses it for `static_cast<unsigned int>(f)`, keeping the low 32 bits):
+  truncation; NaN / out of range give `0x8000000000000000` -/
+  toI64 : F → Int64
 
 section generic
 variable {F : Type} [FOps F]
@@ -65,7 +72,7 @@ def qSnorm (n v : F) : F := round (mul (fclamp v fm1 f1) n)
 /-- narrowing conversions `static_cast<T>(float)` (g++: `cvttss2si` then truncation) -/
 def toU8 (x : F) : UInt8 := (toInt x).toUInt32.toUInt8
 def toU16 (x : F) : UInt16 := (toInt x).toUInt32.toUInt16
-def toU32 (x : F) : UInt32 := (toInt x).toUInt32
+def toU32 (x : F) : UInt32 := (toI64 x).toUInt64.toUInt32
 def toI8 (x : F) : Int8 := (toInt x).toInt8
 def toI16 (x : F) : Int16 := (toInt x).toInt16
 /-- widening conversions to float -/
@@ -74,8 +81,7 @@ def ofU16 (h : UInt16) : F := ofInt h.toUInt32.toInt32
 def ofI8 (b : Int8) : F := ofInt b.toInt32
 def ofI16 (h : Int16) : F := ofInt h.toInt32
 
-/-! literal constants of the source (bit patterns as g++ converts the decimal literals; the harness
-prints them at run time and the driver compares, `const` lines) -/
+/-! literal constants of the source (bit patterns as g++ converts the decimal literals; the correspondence compares: `unpack…(1)` is the constant itself) -/
 /-- `0.0039215686274509803921568627451f` and `static_cast<float>(0.0039215686274509803921568627451)` -/
 def c255 : F := ofBits 0x3b808081
 /-- `0.00787401574803149606299212598425f` (gtc) and `0.0078740157480315f` (core): the same float -/
@@ -334,6 +340,10 @@ def tUnpackUnorm16 (c : UInt16) : F := FOps.mul (ofU16 c) (FOps.div f1 (ofU16 65
 def tPackSnorm8 (v : F) : Int8 := toI8 (qSnorm (ofI8 127) v)
 def tUnpackSnorm8 (c : Int8) : F := fclamp (FOps.mul (ofI8 c) (FOps.div f1 (ofI8 127))) fm1 f1
 def tPackSnorm16 (v : F) : Int16 := toI16 (qSnorm (ofI16 32767) v)
+/-- the same templates at `uint32`/`int32` × `float`: `float(max)` is `2^32` / `2^31`, so `v = 1`
+yields an out-of-range conversion (known finding, see `Props/C06.lean`) -/
+def tPackUnorm32 (v : F) : UInt32 := toU32 (qUnorm (FOps.ofU32 0xFFFFFFFF) v)
+def tPackSnorm32 (v : F) : Int32 := FOps.toInt (qSnorm (FOps.ofInt 0x7FFFFFFF) v)
 def tUnpackSnorm16 (c : Int16) : F := fclamp (FOps.mul (ofI16 c) (FOps.div f1 (ofI16 32767))) fm1 f1
 end gtc
 
@@ -615,13 +625,22 @@ def round (b : Nat) : Nat :=
     let s := Nat.sub 149 (qexp b)          -- value = sig / 2^s,  s ≥ 1
     withSign (sgn b) (roundPack (Nat.shiftRight (Nat.add (sig b) (Nat.pow 2 (Nat.sub s 1))) s) ebias)
 
-/-- `static_cast<int>`: truncation (NaN ↦ 0, saturating) -/
+/-- magnitude of the truncated value -/
+def truncMag (b : Nat) : Nat :=
+  bif Nat.ble 150 (expo b) then Nat.shiftLeft (sig b) (Nat.sub (expo b) 150)
+  else Nat.shiftRight (sig b) (Nat.sub 150 (expo b))
+/-- `cvttss2si r32`: truncation; NaN / outside `[-2^31, 2^31)` ↦ `-2^31` -/
 def toInt (b : Nat) : Int :=
-  bif isNaN b then 0 else
-  let m : Nat := bif Nat.ble 150 (expo b) then Nat.shiftLeft (sig b) (Nat.sub (expo b) 150)
-                 else Nat.shiftRight (sig b) (Nat.sub 150 (expo b))
-  bif sgn b then (bif Nat.ble 2147483648 m then Int.negSucc 2147483647 else Int.negOfNat m)
-  else (bif Nat.ble 2147483647 m then Int.ofNat 2147483647 else Int.ofNat m)
+  bif isNaN b then Int.negSucc 2147483647 else
+  let m : Nat := truncMag b
+  bif sgn b then (bif Nat.blt 2147483648 m then Int.negSucc 2147483647 else Int.negOfNat m)
+  else (bif Nat.ble 2147483648 m then Int.negSucc 2147483647 else Int.ofNat m)
+/-- `cvttss2si r64`: truncation; NaN / outside `[-2^63, 2^63)` ↦ `-2^63` -/
+def toI64 (b : Nat) : Int :=
+  bif isNaN b then Int.negSucc 9223372036854775807 else
+  let m : Nat := truncMag b
+  bif sgn b then (bif Nat.blt 9223372036854775808 m then Int.negSucc 9223372036854775807 else Int.negOfNat m)
+  else (bif Nat.ble 9223372036854775808 m then Int.negSucc 9223372036854775807 else Int.ofNat m)
 
 /-! the quantise/de-quantise chains on patterns (what `qUnorm`/`uU…` unfold to at `SF`) -/
 def fmaxS (x y : Nat) : Nat := bif lt x y then y else x
@@ -643,7 +662,9 @@ instance : FOps SF where
   div a b := ⟨Soft.div a.bits b.bits⟩
   lt a b := Soft.lt a.bits b.bits
   round a := ⟨Soft.round a.bits⟩
+  ofU32 u := ⟨Soft.roundPack u.toNat Soft.ebias⟩
   toInt a := Int32.ofInt (Soft.toInt a.bits)
+  toI64 a := Int64.ofInt (Soft.toI64 a.bits)
 
 instance : FOps Float32 where
   ofBits := Float32.ofBits
@@ -653,7 +674,10 @@ instance : FOps Float32 where
   div a b := a / b
   lt a b := decide (a < b)
   round := Float32.round
-  toInt := Float32.toInt32
+  ofU32 := UInt32.toFloat32
+  toInt x := if x.isNaN || x ≥ 2147483648.0 || x < -2147483648.0 then Int32.minValue else x.toInt32
+  toI64 x := if x.isNaN || x ≥ 9223372036854775808.0 || x < -9223372036854775808.0 then Int64.minValue
+             else x.toInt64
 
 /-! ## 7. `packF3x9_E1x5`, `packRGBM` (native floats: `pow`, `log2`, `floor`, `ceil` from libm) -/
 namespace Native
@@ -725,20 +749,22 @@ def unormDecodeOk (f c n : Nat) : Bool := nearRatio f c n
 def snormDecodeOk (f : Nat) (c : Int) (n : Nat) : Bool :=
   nearRatio f (if c < -(n : Int) then -(n : Int) else c) n
 
-/-- unorm encode rule for a non-NaN input pattern `x`: the code is within
-`1/2 + n·2^-23` of `clamp(x,0,1)·n` (the nearest code, with the float slack of one rounding) -/
+/-- `clamp(x, lo, 1)·n` as an exact numerator over `2^149` (`x` a non-NaN pattern; `lo` is 0 or -1) -/
+def clampedTimes (x : Nat) (signed : Bool) (n : Nat) : Int :=
+  if Soft.mag x ≥ 0x3f800000 then            -- |x| ≥ 1 (or infinite)
+    (if Soft.sgn x then (if signed then -((n : Int) * 2^149) else 0) else (n : Int) * 2^149)
+  else if Soft.sgn x && !signed then 0
+  else num x * n
+/-- unorm encode rule for a non-NaN input pattern `x`: the code is within `1/2 + n·2^-23` of
+`clamp(x,0,1)·n` — the nearest code, with the slack of the one binary32 rounding of the product
+(`n·2^-23 < 0.008` for the 8/16-bit formats, so the end codes are exact there) -/
 def unormEncodeOk (x code n : Nat) : Bool :=
   if Soft.isNaN x then true else
-  if Soft.sgn x || Soft.mag x == 0 then code == 0
-  else if Soft.mag x ≥ 0x3f800000 then code == n
-  else
-    -- |code·2^149 - num x · n| ≤ 2^148 + n·2^126
-    decide (((code : Int) * 2^149 - num x * n).natAbs ≤ 2^148 + n * 2^126)
+  decide (((code : Int) * 2^149 - clampedTimes x false n).natAbs ≤ 2^148 + n * 2^126)
 /-- snorm encode rule; `code` is the signed field value -/
 def snormEncodeOk (x : Nat) (code : Int) (n : Nat) : Bool :=
   if Soft.isNaN x then true else
-  if Soft.mag x ≥ 0x3f800000 then code == (if Soft.sgn x then -(n : Int) else n)
-  else decide ((code * 2^149 - num x * n).natAbs ≤ 2^148 + n * 2^126)
+  decide ((code * 2^149 - clampedTimes x true n).natAbs ≤ 2^148 + n * 2^126)
 
 /-- canonical re-pack of a signed field: the most negative code becomes `-n` -/
 def snormCanon (c : Int) (n : Nat) : Int := if c < -(n : Int) then -(n : Int) else c
